@@ -111,6 +111,12 @@ class Cmp(object):
 
 vcmp = np.vectorize(Cmp)
 
+def _has_nan(value):
+    """ is value a float nan, or a list/tuple holding one: python's native order is not total on these """
+    if isinstance(value, (list, tuple)):
+        return any(_has_nan(v) for v in value)
+    return isinstance(value, (float, np.floating)) and value != value
+
 def sort(iterable):
     """
     implements sorting allowing for comparing of not-same-type objects
@@ -133,10 +139,14 @@ def sort(iterable):
     >>> sort([1,3,2,None]) == [None, 1, 2, 3]
 
     """
+    iterable = list(iterable)
     try:
-        return sorted(iterable)
+        res = sorted(iterable)
     except TypeError:
         return sorted(iterable, key = Cmp)
+    if any(_has_nan(value) for value in iterable): ## sorted() does not raise on nan but does not order it either
+        return sorted(iterable, key = Cmp)
+    return res
 
 
 # def _type(x):
